@@ -70,7 +70,16 @@ def generate(rng, tier):
         life = max(ttl, 1125)
         # follow-up behaviour
         k = rng.random()
-        if k < 0.35:
+        if rng.random() < 0.12:
+            # a chatty responder: the record is re-announced every few seconds (less than the browser's delay apart, so
+            # every copy finds the refresh slot 'close enough' to keep) for minutes, while other records stay quiet
+            bdelay = next(b["delay"] for b in browsers if ty in b["types"]) / 1000.0
+            gap = max(0.5, rng.choice([0.4 * bdelay, 0.9 * bdelay, 1.0, 3.0, 8.0]))
+            dur = rng.choice([120.0, 400.0, 1300.0, 2500.0])
+            n = int(min(dur / gap, 400))
+            for j in range(1, n + 1):
+                ops.append(_ptr(t + j * gap, ty, name, ttl))
+        elif k < 0.35:
             pass  # abandoned: must be refreshed-for and finally removed
         elif k < 0.6:
             tr = t + life * rng.choice([0.3, 0.74, 0.75, 0.751, 0.8, 0.86, 0.95, 0.999])
